@@ -1,3 +1,3 @@
 import CobaVerif.Driver.Loop
--- stub: replaced when the C18 model exists
-def main : IO Unit := Coba.J.runLoop (fun _ => .error "C18 driver not implemented")
+import CobaVerif.Driver.C18
+def main : IO Unit := Coba.J.runLoop Coba.C18.Driver.handle
